@@ -179,3 +179,13 @@ Definition matches_model (c : case) : N :=
 
 (* the model's own prediction, printed into replay files *)
 Definition predicted (i : input) : obs := model_obs i.
+
+(* how much of a batch lies inside the guards of the theorems:
+   (cases with a model input, of these input_ok, of these files_only extras) *)
+Definition guard_counts (cs : list case) : N * N * N :=
+  fold_left (fun '(a, b, c) x =>
+               match c_kind x with
+               | KModel i _ => (N.succ a, if input_ok i then N.succ b else b,
+                                if files_only (i_extra i) then N.succ c else c)
+               | KOpaque => (a, b, c)
+               end) cs (0%N, 0%N, 0%N).
